@@ -617,13 +617,23 @@ class Judge:
         if not err:
             return None
         n = len((rec or {}).get("inputs", [0, 0]))
-        if n == 1 and err["exc"] == "ValueError" and "math domain error" in err["msg"]:
-            return "single_tensor:log_of_zero_flops"
         fr = err.get("frames") or []
         inner = fr[-1][1] if fr else ""
         names = [f[1] for f in fr]
+        if n == 1 and err["exc"] == "ValueError" and "math domain error" in err["msg"]:
+            return "single_tensor:log_of_zero_flops"
+        if n == 1 and err["exc"] == "KeyError" and "tree" in err["msg"] and fr and fr[-1][0] == "hyper.py" \
+                and fr[-1][1] == "tree":
+            # the hyper presets swallow the trial errors above (on_trial_error='warn'): no trial succeeds
+            return "single_tensor:log_of_zero_flops"
+        if err["exc"] == "AssertionError" and "dimension of mean" in err["msg"] and "cmaes_init_optimizers" in names \
+                and (rec or {}).get("method") == "random":
+            return "hyper_cmaes:empty_search_space"
         if err["exc"] == "ValueError" and inner == "labels_partition" and "max()" in err["msg"]:
             return "labels_partition:empty_edge_weights"
+        if err["exc"] == "ValueError" and inner in ("greedy_compressed", "trial_greedy_compressed") and "max()" in err["msg"] \
+                and not (rec or {}).get("size_dict", {1: 1}):
+            return "greedy_compressed:empty_size_dict"
         if err["exc"] == "IndexError" and inner in ("_find_tree_explicit", "_find_path_explicit_path") \
                 and "tuple index out of range" in err["msg"]:
             return "interface:empty_explicit_path"
@@ -770,6 +780,16 @@ def _run(ctx, rng, pool, J):
         params=_sample_space(random.Random(1), space["labels"]))
     add("trial", ([()] * 6, (), {}), "trial labels-agglom (all scalar)", confirm=confirm_agglom, method="labels-agglom",
         params=_sample_space(random.Random(1), space["labels-agglom"]))
+    add("trial", ([()] * 13, (), {}), "trial kahypar-agglom(sub_optimize='greedy-compressed'), no index", method="kahypar-agglom",
+        params={"weight_edges": "const", "imbalance": 0.01, "mode": "direct", "objective": "cut", "groupsize": 4,
+                "fix_output_nodes": "", "compress": 0, "sub_optimize": "greedy-compressed"})
+    add("hyper", special_nets(rng)[3], "HyperOptimizer(methods=['random'], optlib='cmaes')", method="random", repeats=2,
+        optlib="cmaes")
+    one = ([("a", "b")], ("a",), {"a": 2, "b": 3})
+    add("trial", one, "trial labels, 1 tensor", method="labels", params=_sample_space(random.Random(2), space["labels"]))
+    add("trial", one, "trial kahypar, 1 tensor", method="kahypar", params=_sample_space(random.Random(2), space["kahypar"]))
+    add("rgreedy", one, "RandomGreedyOptimizer, 1 tensor", repeats=2)
+    add("hyper", one, "HyperOptimizer(methods=['greedy']), 1 tensor", method="greedy", repeats=2)
     add("preset", ([("a", "b")], ("a",), {"a": 2, "b": 3}), "preset auto, 1 tensor", preset="auto")
     add("explicit", ([("a", "b")], ("a",), {"a": 2, "b": 3}), "explicit empty path, 1 tensor", kind="linear", path=[],
         public=True)
@@ -1084,9 +1104,16 @@ def judge_builder(ctx, J, what, rec, net, o, confirm):
         # the whole loop, replayed with the recorded partition of each round
         mt = "[" + "; ".join("(%s, %s)" % (coq([list(x) for x in sp["xs"]]), coq(list(sp["blocks"])))
                              for sp in o["seps"]) + "]"
-        J.model("build_agglom with the recorded partitions vs the tree built",
-                "build_agglom (sub_of_table %s) (memb_of_table %s) %d %d %d" % (
-                    tbl, mt, rec["opts"]["groupsize"], len(o["seps"]) + 1, n), want,
+        # a run that RETURNED although some round merged nothing can only come from the repaired loop
+        # (finding 17: the loop as it stands never leaves such a round); it is compared with the
+        # repaired model, every other run with the model of the loop as it stands
+        if any(len(sp["groups"]) >= sp["k"] for sp in o["seps"]):
+            term = "build_agglom_fixed (sub_of_table %s) (memb_of_table %s) %d %d" % (tbl, mt, rec["opts"]["groupsize"], n)
+            ctx.count("agglom_no_progress_round_returned")
+        else:
+            term = "build_agglom (sub_of_table %s) (memb_of_table %s) %d %d %d" % (
+                tbl, mt, rec["opts"]["groupsize"], len(o["seps"]) + 1, n)
+        J.model("build_agglom with the recorded partitions vs the tree built", term, want,
                 dict(rec, impl_nested=o["nested"], seps=o["seps"], subs=o["subs"]))
         ctx.count("agglom_replayed")
     for s in o["subs"]:
